@@ -719,6 +719,8 @@ RENAMES = {
     "axes-setitem-renaming-by-name": (2, "axes-setitem", ("u", "x1"), ("x0", "u")),
     "axes-setitem-collision": (2, "axes-setitem", ("x1", 0), None),
     "axes-setitem-collision-by-name": (3, "axes-setitem", ("x0", "x2"), None),
+    # renaming a RESULT that kept a dimension whole (c = a[:, label] has a's x0 axis): whatever happens to c, a must stay as it is
+    "set_axis-on-a-slice-that-shares-the-axis": (2, "via-shared-slice", ("x1", 0), ("x0", "x1")),
     "axis-name-setter-fresh": (2, "axis-name", ("u", 0), ("u", "x1")),
     "axis-name-setter-collision": (2, "axis-name", ("x1", 0), None),
 }
@@ -765,6 +767,11 @@ class Rename(Contract):
             return arr
         if how == "set_axis-copy":
             return arr.set_axis(name=arg[0], axis=arg[1], inplace=False)
+        if how == "via-shared-slice":
+            c = arr.ix[:, 0]                      # dims ('x0',): for c the name x1 is free
+            env["c"] = c
+            c.set_axis(name=arg[0], axis=0)
+            return arr
         if how == "axes-setitem":
             # a.axes[k] = Axis(same labels, another name): replaces the axis object
             pos = arg[1] if isinstance(arg[1], int) else list(arr.dims).index(arg[1])
@@ -774,7 +781,9 @@ class Rename(Contract):
         return arr
 
     def raises(self, S, case, env):
-        want = RENAMES[case["name"]][3]
+        rank, how, arg, want = RENAMES[case["name"]]
+        if how == "via-shared-slice":
+            return {Exception: (False, True)}         # refusing is as good as renaming c alone
         return {Exception: want is None}
 
     def _as_it_was(self, S, case, env):
